@@ -170,6 +170,15 @@ def strings(tier, seed, pvl):
             yield "atom-pairs", f"k = {a}{b}\n"
             if tier == "thorough" or hash((a, b)) % 4 == 0:
                 yield "atom-pairs", f"k = ({a}{b}, {b}) <m>\nEND\n"
+    # words that only casefold / upper-case to a keyword, where keywords stand
+    for kw in ("BEG\u0131N_GROUP", "beg\u0131n_object", "BEG\u0131N_OBJECT", "\u0261ROUP",
+               "END_\u0261ROUP", "end_ob\u0458ect", "FAL\u017fE", "\uff25\uff2e\uff24",
+               "OB\u0408ECT", "Group\u200b", "END\ufeff"):
+        for form in ("{} = g\n a = 1\nEND_GROUP\nEND\n", "{} = g x\n", "{}\n",
+                     "GROUP = g\n a = 1\n{}\nEND\n", "GROUP = g\n{} = g\nEND_GROUP\n",
+                     "a = {}\nEND\n", "{} = o\n b = 2\nEND_OBJECT = o\n",
+                     "BEGIN_GROUP = g\n x = 1\n{} = g\n", "a = 1 {}\n"):
+            yield "keyword-lookalikes", form.format(kw)
     # numbers at and beyond what int(), float() and Decimal() take
     big = ["1E400", "-1e-400", "1E99999", "1E1000000000000000000",
            "2.5e-99999999999999999999", ".5E+12345678901234567890123",
@@ -301,7 +310,7 @@ def finish_kwargs(rec, tier):
                            "strings[generated-truncation]",
                            "strings[corpus-splice]", "strings[value-context]",
                            "strings[atom-pairs]", "strings[extreme-numbers]",
-                           "strings[big-vocabulary]",
+                           "strings[big-vocabulary]", "strings[keyword-lookalikes]",
                            "loads_through_a_long_lived_parser",
                            "outcome[default+Decimal][ok]",
                            "outcome[default][LexerError]", "outcome[PVL][ok]"),
